@@ -479,3 +479,58 @@ M('scan-pattern-three-digit-year', ['C13', 'C14'], RL, "r'(\\d+)_\\d{4}-\\d{2}-\
 M('scan-timestamp-milliseconds', ['C13', 'C14'], RL, "logfiles.append(RollLogFile(int(m.group(1)) / 1_000_000, path", "logfiles.append(RollLogFile(int(m.group(1)) / 1_000, path", ['C13.R8', 'C14.R7'])
 M('scan-not-sorted', ['C13'], RL, "        logfiles.sort()\n", "", ['C13.R8'])
 M('seek-vanished-file-stays', ['C14'], RL, "                    except FileNotFoundError:\n                        read_idx += 1\n\n                    else:", "                    except FileNotFoundError:\n                        pass\n\n                    else:", ['C14.R5'])
+M('newlogfile-D13-shape', ['C13', 'C14'], RL, "return RollLogFile(int(ts * 1_000_000) / 1_000_000, os.path.join", "return RollLogFile(ts, os.path.join", ['C13.R8', 'C14.R7'])
+
+# ------------------------------------------------------------------------------------------------------ round 4 seeds
+M('seed4-C02-subscribe-prefix-without-delimiter', ['C02', 'C03'], Z, "sub.setsockopt_string(zmq.SUBSCRIBE, (src if src.startswith('_') else TOPIC_DELIM + src) + TOPIC_DELIM)", "sub.setsockopt_string(zmq.SUBSCRIBE, src if src.startswith('_') else TOPIC_DELIM + src)", ['C02.R5', 'C03.R11'])
+M('seed4-C05-xpub-nodrop', ['C05'], Z, "            pub.setsockopt(zmq.SNDHWM, ZMQ_PUB_HWM)\n", "            pub.setsockopt(zmq.SNDHWM, ZMQ_PUB_HWM)\n            pub.setsockopt(zmq.XPUB_NODROP, 1)\n", ['C05.R8'])
+M('pub-hwm-unbounded', ['C05'], Z, "            pub.setsockopt(zmq.SNDHWM, ZMQ_PUB_HWM)\n", "", ['C05.R8'])
+M('push-blocking-send', ['C05'], Z, "self.push.send_multipart([json_dumps(msg0, separators=(',', ':')).encode(), *msg_], zmq.DONTWAIT)", "self.push.send_multipart([json_dumps(msg0, separators=(',', ':')).encode(), *msg_])", ['C05.R8'])
+M('seed4-C06-request-new-mark-leaks', ['C05', 'C06'], Z, "                if not sender.conn:\n                    msg_req['new'] = True\n                elif 'new' in msg_req:\n                    del msg_req['new']\n", "                if not sender.conn:\n                    msg_req['new'] = True\n", ['C05.R6', 'C06.R7'])
+M('seed4-C07-overtaken-frame-retried', ['C02', 'C03', 'C07'], MQ, "        if metrics is not None:  # could be None because nothing sent (NOT due to timeout but maybe msg_id invalidated as outdated by downstream) so callback not called and metrics not set\n            outgone()  # we do this after sender.send() to give that data priority\n", "        if metrics is None:\n            return False\n\n        outgone()\n", ['C02.R7', 'C03.R7', 'C07.R7'])
+M('seed4-C08-oob-dropped-for-unregistered-client', ['C08'], Z, "                        self.message_oob([env.get('xtra'), *msg[1:]])\n", "                        if full_id in clients:\n                            self.message_oob([env.get('xtra'), *msg[1:]])\n", ['C08.R7'])
+M('oob-receiver-needs-connection', ['C08'], Z, "                        if msg_id == MSG_ID_OOB:  # out-of-band message\n                            self.message_oob(msg)", "                        if msg_id == MSG_ID_OOB and sender.conn:  # out-of-band message\n                            self.message_oob(msg)", ['C08.R7'])
+M('exit-msg-skips-receiver', ['C08'], MQ, "        if self.receiver is not None:\n            self.receiver.send_oob(reason)\n\n        if self.sender is not None:", "        if self.sender is not None:", ['C08.R7', 'C08.R6'])
+M('seed4-C09-decode-anycolor', ['C09'], FR, "cv2.IMREAD_COLOR if format != 'GRAY' else 0)", "cv2.IMREAD_ANYCOLOR if format != 'GRAY' else cv2.IMREAD_GRAYSCALE)", ['C09.R5'])
+M('decode-flags-swapped', ['C09'], FR, "cv2.IMREAD_COLOR if format != 'GRAY' else 0)", "cv2.IMREAD_COLOR if format == 'GRAY' else 0)", ['C09.R5'])
+M('seed4-C10-ro-returns-view', ['C10'], FR, "new                   = Frame(image := self.image.copy(), self, self.__shapef[1])\n        image.flags.writeable = False", "new                   = Frame(image := self.image.view(), self, self.__shapef[1])\n        image.flags.writeable = False", ['C10.R3'])
+M('seed4-C12-empty-switch-normalised-first', ['C12'], CLI, """        if last_source and "sources" not in config:
+            config.sources = last_source
+
+        if ("outputs" not in config or config.outputs) and filter_can_do_filter_outputs(
+            filter_cls
+        ):
+            last_source = config.id
+
+        if (
+            "sources" in config and not config.sources
+        ):  # convert "--sources=" empty assign to no sources
+            del config.sources
+        if (
+            "outputs" in config and not config.outputs
+        ):  # convert "--outputs=" empty assign to no outputs
+            del config.outputs
+""", """        if (
+            "sources" in config and not config.sources
+        ):  # convert "--sources=" empty assign to no sources
+            del config.sources
+        if (
+            "outputs" in config and not config.outputs
+        ):  # convert "--outputs=" empty assign to no outputs
+            del config.outputs
+
+        if last_source and "sources" not in config:
+            config.sources = last_source
+
+        if ("outputs" not in config or config.outputs) and filter_can_do_filter_outputs(
+            filter_cls
+        ):
+            last_source = config.id
+""", ['C12.R5'])
+M('seed4-C13-tell-past-end-clamped', ['C13', 'C14'], RL, "            if (read_idx := self.read_idx) >= (nlogfiles := len(logfiles := self.logfiles)):\n                return (os.path.basename((lf := logfiles[-1]).path), lf.size) if nlogfiles else ('start', 0)\n\n            return (os.path.basename(logfiles[read_idx].path),", "            if not (nlogfiles := len(logfiles := self.logfiles)):\n                return ('start', 0)\n\n            return (os.path.basename(logfiles[min(self.read_idx, nlogfiles - 1)].path),", ['C13.R9', 'C14.R6'])
+M('seed4-C14-tell-past-end-saves-end', ['C13', 'C14'], RL, "return (os.path.basename((lf := logfiles[-1]).path), lf.size) if nlogfiles else ('start', 0)", "return ('end', 0) if nlogfiles else ('start', 0)", ['C13.R9', 'C14.R6'])
+M('seed4-C15-parse_options-forward-scan', ['C15'], F, "        for i, opt in enumerate(reversed(opts)):  # deal with stupid '!' characters in uri passwords\n            if not Filter.re_valid_option_name.match(opt):\n                text = '!'.join([text] + opts[:(pos := len(opts) - i)])", "        for pos, opt in enumerate(opts, 1):  # deal with stupid '!' characters in uri passwords\n            if not Filter.re_valid_option_name.match(opt):\n                text = '!'.join([text] + opts[:pos])", ['C15.R4'])
+M('parse_options-no-reattach', ['C15'], F, "        for i, opt in enumerate(reversed(opts)):  # deal with stupid '!' characters in uri passwords\n            if not Filter.re_valid_option_name.match(opt):\n                text = '!'.join([text] + opts[:(pos := len(opts) - i)])\n                opts = opts[pos:]\n\n                break\n", "", ['C15.R4'])
+M('seed4-C18-heartbeat-stop-behind-guard', ['C18'], F, "            if hasattr(self, 'emitter') and self.emitter is not None:\n                self.emitter.stop_lineage_heart_beat()\n            self.stop_metrics_updater_thread()", "            if getattr(self, 'telemetry_enabled', False) and hasattr(self, 'emitter') and self.emitter is not None:\n                self.emitter.stop_lineage_heart_beat()\n            self.stop_metrics_updater_thread()", ['C18.R4'])
+M('run-handler-emits-without-stop', ['C18'], F, "            except Filter.Exit:\n                if filter is not None and hasattr(filter, 'emitter') and filter.emitter is not None:\n                    filter.emitter.stop_lineage_heart_beat()\n                    filter.emitter.emit_stop()", "            except Filter.Exit:\n                if filter is not None and hasattr(filter, 'emitter') and filter.emitter is not None:\n                    filter.emitter.emit_stop()", ['C18.R4'])
+M('seed4-C17-size-cached-from-first-frame', ['C17'], VI, "        while True:\n            image  = None if self.stop_evt.is_set() else self.read_one()\n            tframe = time_ns()\n\n            if image is not None:\n                shape = image.shape\n\n                if size:", "        newsize = None\n\n        while True:\n            image  = None if self.stop_evt.is_set() else self.read_one()\n            tframe = time_ns()\n\n            if image is not None:\n                shape = image.shape\n\n                if size and newsize is None:", ['C17.R1'])
